@@ -79,7 +79,10 @@ def delivered_value(repo: Repo, rep, P: str, mc):
                     if node.id in alias:
                         return self.visit(ast.parse(norm(alias[node.id]), mode="eval").body)
                     return node
-            return norm(S().visit(ast.parse(norm(e), mode="eval").body))
+            try:
+                return norm(S().visit(ast.parse(norm(e), mode="eval").body))
+            except SyntaxError:          # a starred argument: not an expression on its own
+                return norm(e)
 
         def leaf(e):
             if isinstance(e, ast.Name) and e.id in env:
